@@ -14,6 +14,7 @@ import re
 from ..astq import walk, kids, strip, qt, dqt, where, canon, if_parts
 from ..flow import Walker, Client
 from ..evalx import Interp, Unsupported
+from ..evalx import _Return as _ReturnX
 from ..extract import AnalysisBroken
 
 BUILDERS = {"BuildPath64", "BuildPathD"}
@@ -170,11 +171,9 @@ def rule_guard(db, chk, cfg, rule="GUARD"):
                     try:
                         got = bool(Interp(db, env).ev(cond))
                     except Unsupported:
-                        if null:
-                            got = True if False else None
-                            # short-circuit should have protected the dereference
-                            raise AnalysisBroken("%s dereferences op before testing it for null" % q)
-                        raise
+                        if not null:
+                            raise
+                        got = "null dereference"     # the short-circuit no longer protects `op->next`: a record whose ring CleanCollinear disposed of crashes here
                     want = null or nodes == 1 or (nodes == 2 and not open_)
                     n += 1
                     ok = got == want
@@ -187,6 +186,43 @@ def rule_guard(db, chk, cfg, rule="GUARD"):
             chk.violation(rule, f.qual, "null=%s/nodes=%s/open=%s" % bad[:3],
                           "%s's degenerate-ring guard is wrong: op null=%s, ring of %s node(s), isOpen=%s -> rejected=%s (closed paths need >= 3 "
                           "points, open paths >= 2)" % ((q,) + bad), where(first), cfg=cfg)
+        # the exit filter: what follows the copy loop rejects exactly a *closed* three-point ring that is a very small triangle (an open
+        # piece of three vertices, two of them close together, is a polyline of real length)
+        tail = []
+        for s0 in reversed(kids(f.body)):
+            if isinstance(s0, dict) and s0.get("kind") in ("WhileStmt", "ForStmt", "DoStmt"):
+                break
+            tail.insert(0, s0)
+        badx = None
+        pathp = f.params[3]["name"] if len(f.params) > 3 else "path"
+        for open_ in (False, True):
+            for size in (2, 3, 4):
+                for small in (False, True):
+                    def hookx(name, argv, nd, size=size, small=small):
+                        if name == "size" and nd.get("kind") == "CXXMemberCallExpr":
+                            return size
+                        if name == "IsVerySmallTriangle":
+                            return small
+                        return NotImplemented
+                    itx = Interp(db, {isopen: open_, "op2": 100}, [], call_hook=hookx)
+                    gotx = None
+                    try:
+                        for s0 in tail:
+                            itx.exec(s0)
+                    except _ReturnX as r:
+                        gotx = bool(r.v)
+                    except Unsupported as e:
+                        raise AnalysisBroken("%s: cannot interpret the statements after the copy loop: %s" % (q, e))
+                    wantx = not (not open_ and size == 3 and small)
+                    n += 1
+                    okx = gotx == wantx
+                    chk.instance(rule, {"function": q, "isOpen": open_, "points": size, "very_small_triangle": small, "accepted": gotx} if n % 4 == 1 or not okx else None, ok=okx)
+                    if not okx and badx is None:
+                        badx = (open_, size, small, gotx)
+        if badx:
+            chk.violation(rule, f.qual, "exit|open=%s/size=%s/small=%s" % badx[:3], "%s's final filter is wrong: isOpen=%s, %s points, very small triangle=%s -> %s; only a closed "
+                          "three-point sliver is discarded (an open piece keeps its length)" % ((q,) + badx[:3] + ("accepted" if badx[3] else ("rejected" if badx[3] is not None else "no answer"),)),
+                          where(tail[0]) if tail else f.where, cfg=cfg)
         # duplicate suppression while copying: a vertex is appended only if it differs from the last one appended
         emp = [x for x in walk(f.body) if x.get("kind") == "CXXMemberCallExpr" and db.callee(x)[0] == "emplace_back"]
         loops = [x for x in walk(f.body) if x.get("kind") == "WhileStmt"]
